@@ -33,7 +33,8 @@ LEVEL_TEXT = ("Exploration by generated-input search over codec objects. Every c
 LEVEL_NOTE = ("trusts the layout table in pvf/ref/of10_layout.py (written from the specification, self-checked for "
               "encode/decode consistency); flow-mod wildcard bits of fields a switch ignores are compared modulo POX's "
               "documented normalisation; ofp_flow_mod.data 'magic' is not generated")
-RULE = ("a case is one codec object given as a JSON fragment {kind, fields} plus bytes placed before and after its encoding; "
+RULE = ("a case is one codec object given as a JSON fragment {kind, fields} plus bytes placed before and after its encoding "
+        "(or such an object plus a change applied after a first pack(), or the name of one specification constant); "
         "cases come from an exhaustive grid (per kind: the default object, every integer field at 0 / max / sign bit, all "
         "fields at max, text fields empty and at full width, ofp_match fields one at a time with prerequisites, size classes "
         "> 32 KiB and at the 64 KiB limit) and from Hypothesis (boundary-biased integers, 0..6 actions, 0..4 list entries, "
@@ -53,13 +54,19 @@ ASSUMPTIONS = [
   "statistics replies: array types carry a list body, single types a single body (the shorthand of a single body for an "
   "array type decodes to a one-element list and is not generated)",
   "an NXM entry whose mask is all ones is the same match as the entry without mask (written without mask)",
+  "vendor actions inside a decoded container are ofp_action_vendor_generic (the library has no Nicira action dispatch); for "
+  "such containers, for all-ones NXM masks and for the integer / entry-instance shorthands of nx_action_bundle.slaves and "
+  "nx_reg_load.dst, == between decoded and original object is not demanded (bytes, consumed length and fields are)",
+  "an object whose pack() raises is judged further on the bytes the reference table prescribes for it (decode clauses only)",
+  "objects are mutable: one that was packed once and then changed by attribute assignment / list append must encode its new state",
 ]
 EXHAUSTIVE_SCOPE = {
   "quick": "per kind (22 messages, 13 actions, 14 statistics bodies, 3 queue properties, packet queue, phy port, match, "
            "Nicira messages/actions/NXM entries): default object; each integer field at 0 / max / sign bit with the others "
            "default; all integer fields at max; text fields empty / full width; every ofp_match field alone (with its "
            "prerequisites) at 0 / max / sign bit in plain and flow-mod mode; every NXM field with and without mask at "
-           "0 / all-ones / sign bit; each container at > 32 KiB and at the largest size that fits 65535 octets",
+           "0 / all-ones / sign bit; each container at > 32 KiB and at the largest size that fits 65535 octets; every scalar "
+           "field and list of every OF 1.0 message changed after a first pack(); 176 enum / macro values of openflow.h",
   "thorough": "as quick (the grid is the same; the thorough tier adds Hypothesis volume)",
 }
 
@@ -616,11 +623,27 @@ def _check_change(out, case):
                                                          _hexdiff(b, exp)), cls=kind, field=fields[0] if fields else "?")
 
 
+def _check_constant(out, case):
+  """The numeric codes the library exports under the specification's names are the specification's."""
+  name = case["const"]
+  out.label("cat:constant")
+  want = R.SPEC_CONSTANTS[name]
+  if not hasattr(_of, name):
+    out.label("constant-not-exported")
+    return
+  out.nontrivial = want != 0
+  got = getattr(_of, name)
+  if got != want:
+    out.fail("constant", "libopenflow_01.%s is %r, openflow.h 1.0.0 says %r" % (name, got, want), name=name)
+
+
 def run_case(case):
   setup()
   out = Outcome()
   try:
-    if "then" in case:
+    if "const" in case:
+      _check_constant(out, case)
+    elif "then" in case:
       _check_change(out, case)
     else:
       _check_object(out, case)
@@ -983,8 +1006,13 @@ def enum_change(tier):
           set={"body": {"k": "ofp_aggregate_stats", "f": {"flow_count": 2}}})
 
 
+def enum_constants(tier):
+  for name in sorted(R.SPEC_CONSTANTS):
+    yield {"const": name}
+
+
 def _all_enum(tier):
-  for g in (enum_grid, enum_match, enum_limits, enum_change) + ((enum_nicira,) if _NICIRA else ()):
+  for g in (enum_constants, enum_grid, enum_match, enum_limits, enum_change) + ((enum_nicira,) if _NICIRA else ()):
     for c in g(tier):
       yield c
 
@@ -1028,7 +1056,7 @@ def _strategy_nx(tier):
 
 
 def plan(tier):
-  k = 1 if tier == "quick" else 20
+  k = 1 if tier == "quick" else 40
   drivers = [
     Enum("grid", lambda: _all_enum(tier), shards=16),
     Hyp("generated-messages", lambda: _strategy_messages(tier), examples=5000 * k, shards=16),
